@@ -2,6 +2,7 @@
   The transition graph of the command machine: which states one `cat_service` step can lead to.
 -/
 import CatVerif.Proofs.Step
+import CatVerif.Proofs.Dispatch
 namespace Cat
 open St
 
